@@ -251,13 +251,7 @@ impl V {
                     return Err("type test not statically decided".into());
                 }
                 let vs: Vec<Ty> = ty.variants().into_iter().filter(|v| v.sub(t)).collect();
-                if vs.is_empty() {
-                    // open finding (valid program rejected, in dead code): the variable gets the EMPTY type, a
-                    // later match on it registers no bindings at all, and a read of such a binder in the same
-                    // chain is VariableUndefined: `{ =(Ok)p, p =d d }`
-                    return Err("statically impossible type-ascribed binder (open finding: a match on a value of empty type registers no bindings)".into());
-                }
-                let bt = Ty::union(vs);
+                let bt = if vs.is_empty() { t.clone() } else { Ty::union(vs) };
                 bind(x, &bt, seen)
             }
             Pat::Tup(n, pfs) => {
@@ -1032,12 +1026,42 @@ fn is_observe_step(c: &Chain) -> Option<Vec<String>> {
 }
 
 /// `Ok(())` iff the program lies in the compared fragment (see module comment).
+/// open finding (registered at the freeze, not analysed): a field-level binding inside a tuple that is itself
+/// the value of a BINDING chain — `_ = [~, d = [~, =4]], [] = d.1` answers [] (the nil test on the inner
+/// variable's field fails)
+fn field_binding_inside_bound_tuple(chains: &[Chain]) -> bool {
+    fn tuple_has_field_binding(t: &Term) -> bool {
+        match t {
+            Term::Tuple(_, fs) => fs.iter().any(|f| match f {
+                Field::Val(_, c) => c.pat.is_some() || c.terms.iter().any(tuple_has_field_binding),
+                _ => false,
+            }),
+            _ => false,
+        }
+    }
+    fn in_expr(e: &Expr) -> bool {
+        e.branches.iter().any(|b| field_binding_inside_bound_tuple(&b.cond) || b.cons.as_ref().map(|k| field_binding_inside_bound_tuple(k)).unwrap_or(false))
+    }
+    fn in_term(t: &Term) -> bool {
+        match t {
+            Term::Block(e) | Term::Fn { body: Some(e), .. } => in_expr(e),
+            Term::Tuple(_, fs) => fs.iter().any(|f| matches!(f, Field::Val(_, c) if field_binding_inside_bound_tuple(std::slice::from_ref(c)))),
+            Term::Interp(segs) => segs.iter().any(|g| matches!(g, Seg::Hole(e) if in_expr(e))),
+            _ => false,
+        }
+    }
+    chains.iter().any(|c| (c.pat.is_some() && c.terms.iter().any(tuple_has_field_binding)) || c.terms.iter().any(in_term))
+}
+
 pub fn validate(p: &Program) -> R<()> {
     if p.steps.is_empty() {
         return Err("empty program".into());
     }
     if p.prints_ambiguously() {
         return Err("prints ambiguously".into());
+    }
+    if field_binding_inside_bound_tuple(&p.steps) {
+        return Err("field-level binding inside a tuple bound by its chain (open finding)".into());
     }
     let v = V { flow: std::cell::Cell::new((false, true)), last_narrows: std::cell::Cell::new(false), in_field: std::cell::Cell::new(0), in_cond: std::cell::Cell::new(false), multi_match_cond: std::cell::Cell::new(false), non_last_cond: std::cell::Cell::new(false), prov_matches: std::cell::Cell::new(0), in_any_cond: std::cell::Cell::new(false), fn_block_depth: std::cell::Cell::new(0) };
     let cx = Cx { param: None, rec: false };
